@@ -10,6 +10,9 @@ func init() {
 		"the SDK hands Collect's context on to the callbacks (that is how a callback knows which reader's collection it serves); nothing is asserted about the data of instruments whose name the SDK refuses or of callbacks registered on them, nor about whether such rejections are reported",
 		"the refusing wrapper provider of the harness stands for a strict bridge: it answers marked instruments with (nil, err) and callbacks given a nil instrument with (nil, err); the same 'nothing asserted about refused ones' applies",
 		"the auto-instrumentation flag (normally flipped by an eBPF agent from outside the process) is set through the verif hook only at phase barriers; nothing is asserted about the delivery of auto-instrumentation SDK spans (started through placeholder tracers before installation while the flag is on)",
+		"the counting wrapper provider of the harness identifies a callback arriving at the SDK's RegisterCallback by calling it once with a probe context (the harness's callbacks then only report their id); callbacks registered without instruments are never invoked by the SDK (documented no-op), only their registration count is checked",
+		"a span started after SetTracerProvider returned 'reaches the SDK' with the start options (kind, attributes) and the parent span context it was started with",
+		"many_handles: table sizes are sampled log-scale up to 32767 tracer / meter scopes and 16383 instruments / callbacks per program; larger tables are not explored",
 		"special measurement values: negative values only on up-down counters and gauges, NaN not on monotonic counters (undefined by the API); a data point holding exactly one measurement is expected to report that value (histogram: count 1, sum = value)",
 	))
 }
